@@ -301,7 +301,7 @@ pub fn run(args: Args) {
     }
     // (b) random sets of 2..6 keys, biased towards shared names and towards resolvable keys;
     //     all request orders for sets of up to 3 keys, 3 random orders otherwise
-    let nsets = if args.thorough() { 2000 } else { args.num("sets", 60) };
+    let nsets = if args.thorough() { 5000 } else { args.num("sets", 60) };
     for _ in 0..nsets {
         let n = 2 + r.below(5);
         let mut set: Vec<K> = Vec::new();
